@@ -350,6 +350,7 @@ func (e *Enc) walk(fr *Frame, order []*ssa.BasicBlock, only map[*ssa.BasicBlock]
 				continue
 			}
 			e.curReach = reach
+			e.curState = &st
 			e.instr(fr, b, idx, in, &st, reach)
 		}
 		fr.out[b] = st
